@@ -16,6 +16,40 @@ def C14(tier, rng):
         cs.append(Case('mt.dns 16 %d %s' % (sz(tier, 8, 64), hx(b)), 'mt-names'))
     for b in corpus_vectors()[:sz(tier, 60, 400)]:
         cs.append(Case('mt.dns 2 %d %s' % (sz(tier, 8, 64), hx(b)), 'mt-corpus'))
+    # histories on ONE thread: the same decode / encode repeated after calls that fail half-way (a pure function
+    # cannot remember them): hostile pointer loops, over-long chains, oversized strings, oversized messages
+    two_ptr = b'\0\1\1\0\0\3' + b'\0' * 6 + b'\3abc\0\0\1\0\1' + b'\1x\xc0\x0c\0\1\0\1' + b'\1y\xc0\x15\0\1\0\1'
+    fwd = b'\0\1\1\0\0\2' + b'\0' * 6 + b'\xc0\x12\0\1\0\1' + b'\1z\xc0\x19\0\1\0\1' + b'\1w\xc0\x1e\0\1\0\1\3end\0'
+    hostile = [pure_pointer_chain_msg(30), hop_chain_msg(25), b'\0\0\0\0\0\1' + b'\0' * 6 + b'\1a\xc0\x0e\xc0\x0c\0\1\0\1',
+               b'\0\0\0\0\0\1' + b'\0' * 6 + b'\xc0\x0e\xc0\x10\xc0\x0c', fan(40, 255)[:-3]]
+    valid = [two_ptr, fwd, hop_chain_msg(17), pure_pointer_chain_msg(17), hop_chain_msg(3)]
+    for _ in range(sz(tier, 30, 300)):
+        for v in valid:
+            cs.append(Case('dec.dns %s' % hx(v), 'repeat'))
+            cs.append(Case('dec.dns %s' % hx(rng.choice(hostile)), 'hostile'))
+            cs.append(Case('dec.dns %s' % hx(v), 'repeat'))
+    bad_enc = ['enc.rr %s' % prr({'ty': 13, 'name': (b'a', b'example'), 'ttl': 0, 'cls': 1, 'f': [b'c' * 300, b'x']}),
+               'enc.dns %s' % pmsg(msg_with([{'ty': 10, 'name': (b'big', b'example'), 'ttl': 0, 'cls': 1, 'f': [bytes(40000)]}] * 2)),
+               'enc.rr %s' % prr({'ty': 16, 'name': (b't', b'example'), 'ttl': 0, 'cls': 1, 'f': [[b'ok', b's' * 256]]})]
+    for _ in range(sz(tier, 40, 400)):
+        m = rand_msg(rng, maxrr=2)
+        good = ['enc.dns %s' % pmsg(m), 'enc.question %s' % pquestion(rand_question(rng, [(b'a', b'example')])),
+                'enc.name %s' % pname(rand_name(rng, [(b'a', b'example'), (b'big', b'example')]))]
+        for g in good:
+            cs.append(Case(g, 'repeat'))
+            cs.append(Case(rng.choice(bad_enc), 'failing-enc'))
+            cs.append(Case(g, 'repeat'))
+    # messages above 16 KiB with names straddling offset 0x3FFF (table insertion guard + hash order)
+    for off in range(0x3FFF - 24, 0x3FFF + 8, sz(tier, 2, 1)):
+        m = high_offset_msg(rng, off)
+        if m:
+            m['an'].append({'ty': 2, 'name': (b'l0', b'l1', b'l2', b'l3'), 'ttl': 0, 'cls': 1, 'f': [(b'q', b'l1', b'l2', b'l3')]})
+            m['an'].insert(1, {'ty': 2, 'name': (b'x',), 'ttl': 0, 'cls': 1, 'f': [(b'l0', b'l1', b'l2', b'l3')]})
+            op = 'enc.dns %s' % pmsg(m)
+            for _ in range(sz(tier, 6, 16)):
+                cs.append(Case(op, 'repeat'))
+            b, _ = render(m, Layout(rng, compress=1.0))
+            cs.append(Case('mt.dns 16 %d %s' % (sz(tier, 4, 16), hx(b)), 'mt-hioff'))
     # plain repeat of encode on fresh encoders (hash seeds): same op several times in one stream
     for _ in range(sz(tier, 500, 5000)):
         m = rand_msg(rng)
